@@ -36,7 +36,12 @@ func newWatcher(logger zerolog.Logger) (*watcher, error) {
 			CausedBy(err)
 	}
 
-	return &watcher{w: fsw, m: make(map[string][]ChangeListener), l: logger}, err
+	return &watcher{
+		w:      fsw,
+		m:      make(map[string][]ChangeListener),
+		notify: make(map[string]*sync.Mutex),
+		l:      logger,
+	}, err
 }
 
 type watcher struct {
@@ -45,7 +50,7 @@ type watcher struct {
 	l zerolog.Logger
 
 	mut    sync.Mutex
-	notify sync.Mutex
+	notify map[string]*sync.Mutex
 }
 
 func (w *watcher) startWatching() {
@@ -110,15 +115,22 @@ func (w *watcher) Add(path string, cl ChangeListener) error {
 func (w *watcher) fireOnChange(evt fsnotify.Event) {
 	w.mut.Lock()
 	listeners := w.m[evt.Name]
+
+	notify, ok := w.notify[evt.Name]
+	if !ok {
+		notify = &sync.Mutex{}
+		w.notify[evt.Name] = notify
+	}
 	w.mut.Unlock()
 
 	for _, listener := range listeners {
 		go func() {
-			// one notification at a time. Listeners read the changed file and replace their state with what they
-			// have read. If notifications for subsequent changes would run concurrently, the one, which read
-			// the older contents, could finish last, leaving the outdated state in place.
-			w.notify.Lock()
-			defer w.notify.Unlock()
+			// one notification at a time for a given file. Listeners read the changed file and replace their state
+			// with what they have read. If notifications for subsequent changes would run concurrently, the one,
+			// which read the older contents, could finish last, leaving the outdated state in place. Notifications
+			// for other files are not affected, so a listener, which takes long, delays only its own updates.
+			notify.Lock()
+			defer notify.Unlock()
 
 			listener.OnChanged(w.l.Level(zerolog.InfoLevel))
 		}()
